@@ -172,7 +172,14 @@ class WrapperSem:
             if n.get("k") == "Call" and n.get("callee") is None and "f" in n and foreign_of(n["f"]):
                 self.apply(dict(n, callee=foreign_of(n["f"])), val, env, prims)      # `op(&mut r, a, b, ctx)` with op bound to a library function
                 return False
+            if n.get("k") == "Ret" and "e" in n:
+                early.update(val(n["e"]))            # an early `return other_wrapper(..)`: one more way the result is computed (a "fast path")
+                return False
+            if n.get("k") in ("Assign",) and strip(n["a"]).get("k") == "Path" and strip(n["a"]).get("res") == "local":
+                env[strip(n["a"])["name"]] = env.get(strip(n["a"])["name"], set()) | val(n["b"])
+                return False
             return True
+        early = set()
         from facts import walk_hir
         walk_hir(h["body"], visit)
         # result: tail expression
@@ -194,6 +201,7 @@ class WrapperSem:
                 res = {self.apply(c, val, env, prims)}
         elif t.get("k") == "Call":
             res = val(t)                   # a wrapper that only delegates: `quad_binary(decQuadAdd, q1, q2)`
+        res = set(res) | early
         out = {"result": res, "prims": prims}
         self.cache[ck] = out
         return out
